@@ -134,7 +134,7 @@ def make_entries(max_len):
     """The same judgement through every way a text reaches the parser: verify() on the loaded submission,
     verify(text) given explicitly while another submission (valid, broken or blank) is loaded, set_source(text)."""
     entries = ['verify()', 'verify(text)|valid', 'verify(text)|broken', 'verify(text)|blank', 'set_source(text)',
-               'verify(report=own)', 'set_source(text, report=own)']
+               'verify(report=own)', 'set_source(text, report=own)', 'verify() inside a group named by a string']
 
     def body(ctx):
         entry = entries[ctx.choose(len(entries), 'entry')]
@@ -146,6 +146,16 @@ def make_entries(max_len):
         if entry == 'verify()':
             cmds.contextualize_report(text)
             judge(ctx, text, where=entry)
+        elif entry.startswith('verify() inside a group'):
+            cmds.contextualize_report(text)
+            MAIN_REPORT.start_group('warmup')
+            try:
+                judge(ctx, text, where=entry)
+            finally:
+                try:
+                    MAIN_REPORT.stop_group('warmup')
+                except Exception:
+                    pass
         elif entry.endswith('report=own)'):
             # a Report of the caller's own, while the global report holds another (broken) submission
             from pedal.core.report import Report
@@ -231,28 +241,45 @@ def make_sections(tier):
             # CPython's parser and are kept)
             ctx.abstain()
             return
-        ctx.observe(original)
-        ctx.set_sample({'file': original, 'section': pos})
+        route = ('plain', 'gradescope environment, file not called answer.py')[ctx.choose(2, 'route')]
+        ctx.observe(original + route)
+        ctx.set_sample({'file': original, 'section': pos, 'route': route})
         cmds.clear_report()
-        cmds.contextualize_report(original)
+        env = None
+        if route == 'plain':
+            cmds.contextualize_report(original)
+        else:
+            import io, contextlib
+            from pedal.environments.gradescope import GradeScopeEnvironment
+            with contextlib.redirect_stdout(io.StringIO()):
+                env = GradeScopeEnvironment(main_file='student_code.py', main_code=original, skip_run=True, skip_tifa=True)
         ctx.step('separate_into_sections')
         sections.separate_into_sections(independent=True)
         for k in range(3):
-            if k > 0:
+            if k > 0 and env is None:
                 ctx.step('next_section')
                 sections.next_section()
-            cur = MAIN_REPORT.submission.main_code
             # what the k-th chunk is, computed from the original text without pedal
             m1 = len(chunks[0])
             m2 = m1 + len(marks[0]) + 1 + len(chunks[1])
             starts = [0, m1 + len(marks[0]), m2 + len(marks[1])]
             ends = [m1, m2, len(original)]
             chunk = original[starts[k]:ends[k]]
+            offset = original[:starts[k]].count('\n')
+            if env is not None and k > 0:
+                # the environment's own step: next section, verify (and more) in one call
+                def step():
+                    import io, contextlib
+                    with contextlib.redirect_stdout(io.StringIO()):
+                        env.next_section()
+                    return MAIN_REPORT['source']['success']
+                judge(ctx, chunk, offset, 'section %d (environment)' % k, do_verify=step)
+            cur = MAIN_REPORT.submission.main_code
             if cur != chunk:
                 ctx.fail({'symptom': 'section text is not the k-th chunk', 'k': k}, file=original, got=cur, want=chunk)
                 return
-            offset = original[:starts[k]].count('\n')
-            judge(ctx, chunk, offset, 'section %d' % k)
+            if env is None or k == 0:
+                judge(ctx, chunk, offset, 'section %d' % k)
     return body
 
 
